@@ -58,6 +58,10 @@ def cHandled (n : Nat) (rs : RStr) : Option Err → Option Err
   | none => none
   | some e => some (.barrier (lid n 0) ⟨rs, none⟩ e)
 
+/-- domains.HandledInDomain / HandledInDomainWithMessage: WithDomain(barriers.Handled…(err), domain) -/
+def cHandledInDomain (n : Nat) (dom : Str) (rs : RStr) (e : Option Err) : Option Err :=
+  cAnnot (n + 1) (.withDomain dom) (cHandled n rs e)
+
 /-- attach `secondary.WithSecondaryError(err, e)` for each error argument, in order -/
 def addSecondaries (n : Nat) (j : Nat) (e : Err) : List Err → Err
   | [] => e
